@@ -155,6 +155,7 @@ CaseOutcome prop_execute(const std::string & case_json) {
         std::vector<int64_t> seeks;
         seeks.push_back(W.front().ts - off - 10);
         seeks.push_back(W.back().ts - off + 10);
+        seeks.push_back(INT64_MIN); seeks.push_back(INT64_MAX);   // "any t": the shift by the first sample id must not wrap
         for (size_t k = 0; k < W.size(); ++k) {
             if (k == 0 || W[k].ts != W[k - 1].ts) {
                 seeks.push_back(W[k].ts - off);
@@ -163,9 +164,9 @@ CaseOutcome prop_execute(const std::string & case_json) {
         }
         // thin out for long lists, but keep every timestamp that sits at an index-chunk edge
         if (seeks.size() > 400) {
-            std::vector<int64_t> keep(seeks.begin(), seeks.begin() + 2);
+            std::vector<int64_t> keep(seeks.begin(), seeks.begin() + 4);
             for (size_t k = df; k < W.size(); k += df) { keep.push_back(W[k].ts - off); keep.push_back(W[k - 1].ts - off); }
-            for (size_t k = 2; k < seeks.size(); k += seeks.size() / 200 + 1) keep.push_back(seeks[k]);
+            for (size_t k = 4; k < seeks.size(); k += seeks.size() / 200 + 1) keep.push_back(seeks[k]);
             seeks.swap(keep);
         }
         for (int64_t ts : seeks) {
